@@ -27,6 +27,10 @@ CHECKS = {
  'C11': dict(engine='B', technique='symbolic execution of the real ExactRiemannSolver sampling code with z3 over the IEEE-UF abstraction (relational: mirror pairs, vacuum vs fan, code vs textbook term shapes)',
    text='Decides the loop-free sampling structure for symbolic states, star state and sampling speed: left/right mirror consistency, vacuum solutions joining the rarefaction fans as identical terms, regime boundaries, jump/isentropic relations as term shapes. The headline accuracy clause (iterative P* over pow in binary64) is a numerical-analysis statement outside any solver here and is NOT claimed.',
    note='Partial: star-pressure accuracy, continuity as numbers and agreement with a reference solver are outside. Ties excluded; stated domain [2^-100,2^100].', ref='DESIGN.md section 5 C11'),
+
+ 'C17': dict(engine='B+A', technique='symbolic execution of the real predicate code with big integers mapped to z3 Int (polynomial identities and magnitude lemmas decided by z3 NIA); cbmc bit-precise for the mantissa map',
+   text='orient3d_exact / insphere_exact equal the sign of the reference determinants for ALL mantissa values (polynomial identity over mathematical integers), change sign under odd and are invariant under even permutations, every intermediate fits the 256/278-bit types; get_mantissa is the exact affine map on [1,2) for every binary64 value.',
+   note='Partial: soundness of the floating-point filter (adaptive versions) is an FP error-analysis statement and is outside. Boost big integers are modelled as mathematical integers; width sufficiency is proved separately (E3).', ref='DESIGN.md section 5 C17'),
 }
 NA = {
 }
